@@ -5,7 +5,9 @@ import vlib
 
 rep = vlib.run_translator()
 print("translator:", rep)
-ok, out, dt = vlib.lake_build([])
+from props import PROPS
+mods = sorted({m for c in PROPS.values() for m in c["modules"]})
+ok, out, dt = vlib.lake_build(["StunVerif", "stunmodel"] + mods)
 print(out[-3000:])
 print(f"lake build: ok={ok} {dt:.0f}s")
 ok2, out2, dt2 = vlib.cargo_build()
